@@ -20,4 +20,14 @@ theorem reader_read_as_modelled :
   rfl
 
 
+/-- today's Conn.read — Peek(n), io.EOF mapped to the abnormal-closure error, Discard — is the modelled one (Buf.take + mapEOF) -/
+theorem conn_read_as_modelled :
+    Gen.stmts_connRead =
+      ["p, err := c.br.Peek(n)",
+        "if err == io.EOF { err = errUnexpectedEOF }",
+        "_, _ = c.br.Discard(len(p))",
+        "return p, err"] := by
+  rfl
+
+
 end WS.Props.C05Tie
